@@ -91,7 +91,8 @@ func genRun(t *rapid.T, text []rune, start, ln int) RunSpec {
 func genConfig(t *rapid.T, c *Case) {
 	c.Cfg.Policy = rapid.IntRange(0, 2).Draw(t, "policy")
 	if rapid.IntRange(0, 1).Draw(t, "truncate") == 1 {
-		c.Cfg.Lines = rapid.IntRange(1, 3).Draw(t, "truncateAfterLines")
+		// 1-3, or a limit that is enabled but (almost) never reached
+		c.Cfg.Lines = rapid.SampledFrom([]int{1, 2, 3, 2, 3, 1, 40, 7}).Draw(t, "truncateAfterLines")
 	}
 	switch rapid.IntRange(0, 5).Draw(t, "truncatorKind") {
 	case 0:
@@ -206,10 +207,14 @@ func genWidths(t *rapid.T, c *Case, m *model) {
 		total = 0
 	}
 	tr := m.b.cfg.Truncator.Advance.Ceil()
+	narrow := narrowestCluster(m)
 	one := func() int {
 		var w int
 		// (rapid's integers lean towards the lower bound: the common kind gets the low values)
-		switch rapid.IntRange(0, 16).Draw(t, "widthKind") {
+		switch rapid.IntRange(0, 18).Draw(t, "widthKind") {
+		case 17, 18:
+			// around the narrowest cluster: below one glyph, exactly one, one more
+			return clampWidth(narrow + rapid.SampledFrom([]int{0, -1, 1}).Draw(t, "narrowDelta"))
 		case 16:
 			// rare: a huge width (mixes with tiny ones when the widths vary per line)
 			return extremeWidths[rapid.IntRange(0, len(extremeWidths)-1).Draw(t, "extremeWidth")]
@@ -265,6 +270,54 @@ func genWidths(t *rapid.T, c *Case, m *model) {
 	c.Widths = make([]int, k)
 	for i := range c.Widths {
 		c.Widths[i] = one()
+	}
+	alternateWidths(t, c, m, one())
+}
+
+func clampWidth(w int) int {
+	if w < 0 {
+		return 0
+	}
+	return w
+}
+
+// narrowestCluster: the smallest positive width (in pixels, rounded up) of one glyph cluster.
+func narrowestCluster(m *model) int {
+	best, prev := 0, 0
+	for p := 1; p <= m.n; p++ {
+		if m.inside[p] {
+			continue
+		}
+		if w := (m.cum[p] - m.cum[prev]).Ceil(); w > 0 && (best == 0 || w < best) {
+			best = w
+		}
+		prev = p
+	}
+	return best
+}
+
+// alternateWidths (iterative API, one case in five): widths that change from line to line between a
+// wide value and a width at or below one glyph (wide, 0, wide, ... or the reverse).
+func alternateWidths(t *rapid.T, c *Case, m *model, other int) {
+	if c.Paragraph || rapid.IntRange(0, 4).Draw(t, "alternate") != 4 {
+		return
+	}
+	narrow := narrowestCluster(m)
+	small := clampWidth(rapid.SampledFrom([]int{0, 1, narrow - 1, narrow, narrow + 1, 0}).Draw(t, "narrowWidth"))
+	wide := m.cum[m.n].Ceil() + 5
+	if rapid.Bool().Draw(t, "wideIsASpan") {
+		wide = other
+	}
+	wide = clampWidth(wide)
+	n := rapid.IntRange(2, 8).Draw(t, "alternations")
+	first := rapid.Bool().Draw(t, "narrowFirst")
+	c.Widths = c.Widths[:0]
+	for i := 0; i < n; i++ {
+		if (i%2 == 0) == first {
+			c.Widths = append(c.Widths, small)
+		} else {
+			c.Widths = append(c.Widths, wide)
+		}
 	}
 }
 
